@@ -867,6 +867,27 @@ impl Actor for NodeServer {
     }
 }
 
+/// cfg-only: the session election function over plain tuples (actor pid, is_server, nonce; 0 = legacy)
+#[cfg(ractor_verif)]
+#[allow(missing_docs)]
+pub fn verif_elect(this_node_name: &str, peer_name: &str, candidates: Vec<(u64, bool, u64)>) -> Vec<u64> {
+    elect_sessions(
+        this_node_name,
+        peer_name,
+        candidates
+            .into_iter()
+            .map(|(id, is_server, nonce)| SessionElectionCandidate {
+                actor_id: ActorId::Local(id),
+                is_server,
+                connection_id: NonZeroU64::new(nonce),
+            })
+            .collect(),
+    )
+    .into_iter()
+    .map(|id| id.pid())
+    .collect()
+}
+
 #[cfg(test)]
 mod tests {
     use super::*;
